@@ -122,7 +122,24 @@ EvEciBody ==
      Step(IF (IF ch[1] THEN E.res.k = "ok" /\ E.res.cps = ch[2] ELSE E.res.k = "charset") THEN {} ELSE {"C15.charsetBody"})
   /\ UNCHANGED v_rd
 
-Next == EvEncodeStr \/ Read \/ EvDecodeStr \/ EvUtf8ToLatin1 \/ EvLatin1ToUtf8 \/ EvLatin1RoundTrip
+\* A stream that switches the ECI: chunks <<eci, bytes>> (eci = -1: no designator before the first chunk = default set).
+\* After a macro codeword the header is interpreted as UTF-8 and the default set starts at the body; the trailer is UTF-8.
+\* The string is the concatenation of the chunk decodings; the first failing chunk decides the error class.
+EvEciSpans ==
+  /\ IsEvent("EciSpans")
+  /\ LET chs == E.chunks
+         eciOf(k) == IF chs[k].eci < 0 THEN 0 ELSE chs[k].eci
+         dec(k) == IF CsSupported(eciOf(k)) THEN CsDecodeChunk(eciOf(k), chs[k].bytes) ELSE <<FALSE, <<>>>>
+         firstBad == LET bad == {k \in 1..Len(chs) : ~dec(k)[1]} IN IF bad = {} THEN 0 ELSE CHOOSE k \in bad : \A j \in bad : k <= j
+         body == FoldLeft(LAMBDA acc, k : acc \o dec(k)[2], <<>>, [k \in 1..Len(chs) |-> k])
+         head == IF E.macro = 236 THEN <<91, 41, 62, 30, 48, 53, 29>> ELSE IF E.macro = 237 THEN <<91, 41, 62, 30, 48, 54, 29>> ELSE <<>>
+         trail == IF E.macro = 0 THEN <<>> ELSE <<30, 4>>
+         want == IF firstBad = 0 THEN "ok" ELSE IF ~CsSupported(eciOf(firstBad)) /\ (Len(chs[firstBad].bytes) > 0 \/ TRUE) THEN "notimpl" ELSE "charset"
+     IN Step(IF (want = "ok" /\ E.res.k = "ok" /\ E.res.cps = head \o body \o trail) \/ (want # "ok" /\ E.res.k = want)
+             THEN {} ELSE {"C15.eciSpans"})
+  /\ UNCHANGED v_rd
+
+Next == EvEciSpans \/ EvEncodeStr \/ Read \/ EvDecodeStr \/ EvUtf8ToLatin1 \/ EvLatin1ToUtf8 \/ EvLatin1RoundTrip
         \/ EvEncodeEci \/ EvDesignators \/ EvTruncated \/ EvCharsetBytes \/ EvUtf8Pairs \/ EvUtf8Seqs \/ EvEciBody
 
 Terminal == v_l = Len(Events) + 1 /\ v_rd.status # "run"
